@@ -334,7 +334,7 @@ SortedFinish(m, fr) ==
     ELSE LET sp == SortPairs(m.heap, pairs, fr.rev, 1, <<>>)
              out == [j \in 1..n |-> sp[j][2]] IN
          IF fr.src.t = "dict"
-         THEN (LET al == Alloc(m.heap, NewDict([j \in 1..n |-> <<out[j].items[1].s, out[j].items[2]>>])) IN
+         THEN (LET al == Alloc(m.heap, NewDict([j \in 1..n |-> <<KeyOfVal(out[j].items[1]), out[j].items[2]>>])) IN
                [m EXCEPT !.heap = al.h, !.k = Pop(@), !.ctl = [t |-> "ret", v |-> DictRef(al.a)]])
          ELSE IF Dev("MutSortedInPlace") /\ fr.src.t = "list"      \* specification mutant (non-vacuity of C13)
          THEN FinishList([m EXCEPT !.heap[fr.src.addr].items = out], out)
@@ -347,7 +347,7 @@ HoNext(m) ==
             IF fr.src.t = "dict"
             THEN (IF LenOf(m.heap, fr.src) # fr.n0 THEN PopRaise(m, OtherErr("RuntimeError"))
                   ELSE IF fr.i > fr.n0 THEN FinishList(m, fr.acc)
-                  ELSE LET p == Items(m.heap, fr.src)[fr.i] IN CallF(m, fr.fv, <<Str(p[1]), p[2]>>))
+                  ELSE LET p == Items(m.heap, fr.src)[fr.i] IN CallF(m, fr.fv, <<KeyVal(p[1]), p[2]>>))
             ELSE LET its == LiveItems(m, fr.src) IN
                  IF fr.i > Len(its) THEN FinishList(m, fr.acc) ELSE CallF(m, fr.fv, <<its[fr.i]>>)
       [] fr.fn = "filter" ->
@@ -405,7 +405,7 @@ StartHo(m, name, args) ==
       [] name = "sorted" ->
             IF n = 0 \/ n > 3 THEN Raise(m, TypeErr)
             ELSE LET its == IF a1.t = "dict"
-                            THEN [j \in 1..LenOf(m.heap, a1) |-> Tuple(<<Str(Items(m.heap, a1)[j][1]), Items(m.heap, a1)[j][2]>>)]
+                            THEN [j \in 1..LenOf(m.heap, a1) |-> Tuple(<<KeyVal(Items(m.heap, a1)[j][1]), Items(m.heap, a1)[j][2]>>)]
                             ELSE IterItems(m.heap, a1)
                      keyOk == a2.t \in {"none", "lambda", "builtin", "hostfn"} IN
                  IF ~Iterable(a1) THEN Raise(m, TypeErr)
